@@ -273,12 +273,50 @@ def fullmatch(pattern, chars):
 # shape whose condition holds.  Bounded by the (concrete) subject length.
 
 
+def leading_flags(pattern):
+    """a leading flag group `(?x)`, `(?i)`, `(?xi)` … → (flags, length of the group)"""
+    import re as _re
+    mo = _re.match(r"\(\?([xi]+)\)", pattern)
+    return (mo.group(1), mo.end()) if mo else ("", 0)
+
+
+def fold_case(node):
+    """case-insensitive matching (flag i): every literal / class also matches the simple case variants of its characters (incl. the two
+    non-ASCII characters that fold to ASCII letters: U+017F → s, U+212A → k)"""
+    def variants(c):
+        ch = chr(c)
+        out = {c, ord(ch.lower()) if len(ch.lower()) == 1 else c, ord(ch.upper()) if len(ch.upper()) == 1 else c}
+        if ch in "sS":
+            out.add(0x17F)
+        if ch in "kK":
+            out.add(0x212A)
+        if c == 0x17F:
+            out |= {ord("s"), ord("S")}
+        if c == 0x212A:
+            out |= {ord("k"), ord("K")}
+        return sorted(out)
+    if node.kind == "lit":
+        vs = variants(node.a[0])
+        return node if len(vs) == 1 else P("set", [(v, v) for v in vs], False)
+    if node.kind == "set":
+        ranges, neg = node.a
+        extra = []
+        for lo, hi in ranges:
+            if hi - lo > 512:
+                continue
+            for c in range(lo, hi + 1):
+                extra += [(v, v) for v in variants(c) if not any(l <= v <= h for l, h in ranges)]
+        return P("set", list(ranges) + extra, neg)
+    return P(node.kind, *[([fold_case(x) if isinstance(x, P) else x for x in a] if isinstance(a, list) else (fold_case(a) if isinstance(a, P) else a)) for a in node.a])
+
+
 def strip_verbose(pattern):
-    """(?x): drop unescaped whitespace and #-comments"""
-    if not pattern.startswith("(?x)"):
-        return pattern
+    """(?x): drop unescaped whitespace and #-comments (a leading flag group is removed; see leading_flags for `i`)"""
+    flags, skip = leading_flags(pattern)
+    if "x" not in flags:
+        return pattern[skip:]
     out = ""
-    i = 4
+    i = skip
     in_class = False
     while i < len(pattern):
         c = pattern[i]
@@ -304,6 +342,7 @@ def strip_verbose(pattern):
 
 def parse_captures(pattern):
     """like parse(), but numbers capture groups and records laziness: nodes P('cap', idx, inner), P('star', inner, lazy)…"""
+    ci = "i" in leading_flags(pattern)[0]
     pattern = strip_verbose(pattern)
     pos = 0
     n = len(pattern)
@@ -387,6 +426,8 @@ def parse_captures(pattern):
     tree = alt()
     if pos != n:
         raise Unsupported("regex not fully parsed: %r at %d" % (pattern, pos))
+    if ci:
+        tree = fold_case(tree)
     return tree, counter[0]
 
 
